@@ -210,6 +210,35 @@ func ruleC05e(c *Ctx) {
 		okSrc := false
 		why := "the returned writer does not come from a registry lookup"
 		if ex, ok := strip(r.Results[0]).(*ssa.Extract); ok {
+			// a helper that walks the route's Produces: all its successful returns must qualify
+			if call, ok := ex.Tuple.(*ssa.Call); ok && call.Call.StaticCallee() != nil && call.Call.StaticCallee().Name() != "accessorAt" && p.inModule(call.Call.StaticCallee()) {
+				h := call.Call.StaticCallee()
+				if res := h.Signature.Results(); res.Len() == 2 && isRestfulNamed(res.At(0).Type(), "EntityReaderWriter") {
+					okAll, nret := true, 0
+					for _, hr := range returnsOf(h) {
+						if b, ok := constBool(hr.Results[1]); ok && !b {
+							continue
+						}
+						nret++
+						okOne := false
+						if hex, ok := strip(hr.Results[0]).(*ssa.Extract); ok {
+							if hc, ok := hex.Tuple.(*ssa.Call); ok && hc.Call.StaticCallee() != nil && hc.Call.StaticCallee().Name() == "accessorAt" {
+								if isProduceElem(hc.Call.Args[len(hc.Call.Args)-1]) {
+									okOne = true
+								}
+							}
+						}
+						if !okOne {
+							okAll = false
+						}
+					}
+					if okAll && nret > 0 {
+						okSrc = true
+					} else {
+						why = "helper " + h.Name() + " can return a writer for a media type that is not an element of the route's Produces"
+					}
+				}
+			}
 			if call, ok := ex.Tuple.(*ssa.Call); ok && call.Call.StaticCallee() != nil && call.Call.StaticCallee().Name() == "accessorAt" {
 				arg := call.Call.Args[len(call.Call.Args)-1]
 				switch {
